@@ -246,7 +246,9 @@ def unit_level(ctx, stats):
                     ctx.violation("corr:" + vlib.sha(mod_lines[wi * nref + k])[:12],
                                   "model and real block processor (serial pool) differ: model=%s real=%s" % (m[:600], refs[k][:600]),
                                   {"kind": "unit-model", "model_line": mod_lines[wi * nref + k], "harness_line": ref_lines[wi * nref + k],
-                                   "model": m, "real": refs[k]}, found_input=False)
+                                   "model": m, "real": refs[k]},
+                                  # an error return on a workload the theorems say cannot fail is a failing input of the property itself
+                                  found_input=(m.startswith("ok ") and refs[k].startswith("err")))
         # (a'') bookkeeping of the serial build: items submitted, largest number of items inside the pool (a function of the
         # workload and max_backlog on the serial pool), everything written at the end
         for k in range(nref):
